@@ -1,9 +1,98 @@
 import GnpyDriver.JsonUtil
+import GnpyDriver.C08
 import GnpyModel
 /- driver handlers for property C09 (ops are named "c09.<name>") -/
 open Lean
 namespace Gnpy.Drv.C09
+open Gnpy.Chain Gnpy.Drv.C08
 
-def handlers : List (String × Handler) := []
+def getCfg (j : Json) : R (Cfg Float) := do
+  return { powerMode := ← fBool j "power_mode", dpLo := ← fF j "dp_lo", dpHi := ← fF j "dp_hi", dpStep := ← fF j "dp_step",
+           lossRef := ← fF j "loss_ref", slope := ← fF j "slope", voaMargin := ← fF j "voa_margin",
+           voaStep := ← fF j "voa_step", extGain := ← fF j "ext_gain" }
+
+def getSel (j : Json) : R (Sel Float) := do
+  return { pMax := ← fF j "p_max", gainFlatmax := ← fF j "gain_flatmax", outVoaAuto := ← fBool j "out_voa_auto" }
+
+def fmin (a b : Float) : Float := if a < b then a else b
+
+/-- distance of `y` to the nearest rounding tie of `rint` -/
+def rintMargin (y : Float) : Float := Float.abs ((y - y.floor) - 0.5)
+
+/-- class-D margin of `round2float x step` -/
+def r2fMargin (x step : Float) : Float :=
+  let s := round1 step
+  let m0 := rintMargin (step * 10.0)
+  if hundredth ≤ s then
+    let y := x / s
+    let z := Rint.rint y * s * 10.0
+    fmin m0 (fmin (rintMargin y) (rintMargin z))
+  else fmin m0 (rintMargin (x * 100.0))
+
+def jAmpOut (o : AmpOut Float) (margin : Float) : Json :=
+  jObj [("gain", jF o.gain), ("delta_p", jOpt jF o.deltaP), ("dp_int", jF o.dpInt), ("out_voa", jF o.outVoa),
+        ("in_voa", jF o.inVoa), ("target_pch", jOpt jF o.targetPch), ("ret_dp", jF o.retDp), ("ret_voa", jF o.retVoa),
+        ("reduction", jF o.reduction), ("dp0", jF o.dp0), ("gain0", jF o.gain0), ("power_target", jF o.powerTarget),
+        ("margin", jF margin)]
+
+/-- margins of the roundings each `ampStep` performs: (delta_p / VOA rounding, target_pch rounding) -/
+def marginsOf (c : Cfg Float) (pref prefTotal : Float) : Float → Float → List (AmpIn Float) → List (Float × Float)
+  | _, _, [] => []
+  | pd, pv, a :: rest =>
+    let o := ampStep c pref prefTotal pd pv a
+    let m1 := if a.user.deltaP.isNone && !a.nextIsRoadm then r2fMargin ((a.nextLoss - c.lossRef) * c.slope) c.dpStep
+              else 1.0
+    let m2 := if a.user.outVoa.isNone && c.powerMode && a.sel.outVoaAuto then
+                r2fMargin (pmin (a.sel.pMax - o.powerTarget) (a.sel.gainFlatmax - (o.gain0 + o.reduction))) c.voaStep
+              else 1.0
+    let m3 := match o.deltaP, a.user.deltaP with
+      | some _, some ud => rintMargin ((ud + pref) * 100.0)
+      | some d, none => rintMargin ((d + pref) * 100.0)
+      | none, _ => 1.0
+    (fmin m1 m2, m3) :: marginsOf c pref prefTotal o.retDp o.retVoa rest
+
+/-- round2float alone -/
+def r2f (j : Json) : R Json := do
+  let x ← fF j "x"
+  let step ← fF j "step"
+  return jObj [("value", jF (round2float x step)), ("margin", jF (r2fMargin x step))]
+
+/-- target_power alone -/
+def target (j : Json) : R Json := do
+  let c ← getCfg j
+  let nl ← fF j "next_loss"
+  let isR ← fBool j "next_is_roadm"
+  return jObj [("value", jF (targetPower c isR nl)),
+               ("margin", jF (if isR then 1.0 else r2fMargin ((nl - c.lossRef) * c.slope) c.dpStep))]
+
+/-- complete design of one chain: completion of the line (C08 model) then the amplifier recurrence -/
+def design (j : Json) : R Json := do
+  let ch ← getChain (← fld j "chain")
+  let sc ← getSplit j
+  let c ← getCfg j
+  if (← fNat j "dp_range_len") != 3 then
+    -- target_power indexes dp_range[2]: IndexError -> ConfigurationError, as soon as one amplifier needs the rule
+    return jObj [("error", jStr "ConfigurationError")]
+  let missing := addMissingLine sc ch
+  let withConn := addConn (← fF j "con_in") (← fF j "con_out") (← fF j "eol") missing
+  if (runs withConn).any padRaises then return jObj [("error", jStr "TypeError")]
+  let line := addPadding (← fF j "padding") withConn
+  if designRaises line then return jObj [("error", jStr "TypeError")]
+  let sels ← fList getSel j "sels"
+  let pref ← fF j "pref"
+  let prefTotal ← fF j "pref_total"
+  let srcPower ← fF j "src_power"
+  let dstIsRoadm := ch.dstKind == .roadm
+  let inputs := ampInputs dstIsRoadm line sels
+  let outs := designAmps c pref prefTotal (srcPower - pref) 0.0 inputs
+  let ms := marginsOf c pref prefTotal (srcPower - pref) 0.0 inputs
+  let amps := (line.filter (fun e => e.isEdfa)).map Elem.uid
+  return jObj [("amps", jList jStr amps),
+               ("outs", jList (fun om => jObj [("o", jAmpOut om.1 om.2.1), ("m_target", jF om.2.2)]) (outs.zip ms)),
+               ("inputs", jList (fun a => jObj [("node_loss", jF a.nodeLoss), ("next_loss", jF a.nextLoss),
+                                                ("next_is_roadm", jBool a.nextIsRoadm)]) inputs),
+               ("line", jList jElem line)]
+
+def handlers : List (String × Handler) := [("c09.r2f", r2f), ("c09.target", target), ("c09.design", design)]
 
 end Gnpy.Drv.C09
